@@ -42,7 +42,10 @@ func (m *DelegationRewardsMethod) Run(evm *vm.EVM, contract *vm.Contract) ([]byt
 		return nil, err
 	}
 	stateDB := evm.StateDB.(types.ExtStateDB)
-	cacheCtx := stateDB.Context()
+	// a view must not write: IncrementValidatorPeriod below changes the distribution store, and a write made through
+	// stateDB.Context() is neither snapshotted nor journaled (it would survive a revert of the call frame and even a
+	// failed transaction), so the calculation runs on a branch of the store that is never written back
+	cacheCtx, _ := stateDB.Context().CacheContext()
 
 	valAddr := args.GetValidator()
 	validator, err := m.stakingKeeper.GetValidator(cacheCtx, valAddr)
